@@ -150,6 +150,18 @@ func discharge(sc *Script, obls []*Obligation, outDir string, secs int, thorough
 			if r.status != "unsat" {
 				r = runSolvers(tag+sc.query(o.Pos, o.Goal, true, false, 0), file, secs, thorough)
 			}
+			if r.status != "unsat" && o.Except != "" && o.Kind != "cover" && o.Kind != "vacuity" {
+				// known finding: does the obligation hold for every input outside the recorded ones?
+				g2 := "(=> (not " + o.Except + ") " + o.Goal + ")"
+				r2 := runSolvers(tag+sc.query(o.Pos, g2, false, abs, 0), file+".except.smt2", secs, thorough)
+				if r2.status != "unsat" && abs {
+					r2 = runSolvers(tag+sc.query(o.Pos, g2, false, false, 0), file+".except.smt2", secs, thorough)
+				}
+				if r2.status == "unsat" {
+					r.status = "known"
+					os.Remove(file + ".except.smt2")
+				}
+			}
 			o.Status, o.Solver, o.Secs = r.status, r.solver, r.secs
 			if r.status == "unsat" && os.Getenv("GOVC_KEEP") == "" && o.Kind != "cover" && o.Kind != "vacuity" {
 				os.Remove(file)
